@@ -218,6 +218,42 @@ def run(ctx, res):
                 a[s] = 'u'
                 one_build(ctx, res, w, a, out_state, rng.choice(['.p8', '.p8.png']), lines, expect, cases, conflict=(s, kind))
                 res.count('conflicts')
+    # file names are taken as given: a directory literally named `~` (or `$HOME`, `%x`) is not the home directory
+    tw = os.path.join(ctx.tmp, 'tilde')
+    fake_home = os.path.join(ctx.tmp, 'fakehome')
+    saved_cwd, saved_home = os.getcwd(), os.environ.get('HOME')
+    try:
+        for d in ('~', '$HOME', '~user'):
+            os.makedirs(os.path.join(tw, d), exist_ok=True)
+        os.makedirs(fake_home, exist_ok=True)
+        os.chdir(tw)
+        os.environ['HOME'] = fake_home
+        for d in ('~', '$HOME', '~user'):
+            src = w.new_cart('.p8')
+            decoy = w.new_cart('.p8')
+            shutil.copy(src, os.path.join(tw, d, 'a.p8'))
+            shutil.copy(decoy, os.path.join(fake_home, 'a.p8'))
+            for out_rel, out_abs in ((os.path.join(d, 'o.p8'), os.path.join(tw, d, 'o.p8')), ('o2.p8', os.path.join(tw, 'o2.p8'))):
+                for pth in (out_abs, os.path.join(fake_home, 'o.p8')):
+                    if os.path.exists(pth):
+                        os.remove(pth)
+                rc = run_build(['--gfx', os.path.join(d, 'a.p8'), out_rel])
+                res.evaluations += 1
+                res.count('literal-tilde-paths')
+                res.nontrivial.add(('tilde', d, out_rel))
+                key = 'C13:literal-path:%s:%s' % (d, out_rel)
+                if rc != 0 or not os.path.exists(out_abs):
+                    res.fail(key, 'build --gfx %s/a.p8 %s (directory literally named %s): rc=%r, OUT written at the named place: %s' % (
+                        d, out_rel, d, rc, os.path.exists(out_abs)), {'argv': ['--gfx', d + '/a.p8', out_rel], 'cwd_has_dir': d})
+                elif cart_contents(out_abs)['gfx'] != cart_contents(src)['gfx']:
+                    res.fail(key, 'build --gfx %s/a.p8 took the gfx section from another file than the one named' % d,
+                             {'argv': ['--gfx', d + '/a.p8', out_rel], 'cwd_has_dir': d})
+    finally:
+        os.chdir(saved_cwd)
+        if saved_home is None:
+            os.environ.pop('HOME', None)
+        else:
+            os.environ['HOME'] = saved_home
     # output name that is not a cart
     rc = run_build(['--empty-gfx', os.path.join(ctx.tmp, 'out.txt')])
     res.evaluations += 1
